@@ -49,6 +49,11 @@ def build(race=False):
     """Rebuild the worker against /repo's current working tree. Returns (path, None) or (None, err)."""
     os.makedirs(BIN, exist_ok=True)
     shutil.copyfile(os.path.join(REPO, "go.sum"), os.path.join(HARNESS, "go.sum"))
+    # census of the exported API of the working tree (types, functions), regenerated every build
+    p = subprocess.run(["go", "run", "./cmd/census", REPO, os.path.join(HARNESS, "lib", "census_gen.go")], cwd=HARNESS,
+                       env=goenv(), stdout=subprocess.PIPE, stderr=subprocess.STDOUT, text=True)
+    if p.returncode != 0:
+        return None, "census failed:\n" + p.stdout[-4000:]
     out = os.path.join(BIN, "worker-race" if race else "worker")
     cmd = ["go", "build", "-tags", "verif", "-o", out]
     if race:
